@@ -1,0 +1,39 @@
+//go:build verif
+
+package fastforward
+
+import (
+	"fmt"
+
+	"github.com/IrineSistiana/mosdns/v5/pkg/upstream"
+	"go.uber.org/zap"
+)
+
+// NewForwardWithUpstreams is a verification-only constructor (build tag "verif"):
+// it returns a Forward whose upstream list consists of the given upstream.Upstream
+// values (tags[i] may be empty) instead of upstreams dialled from addresses.
+func NewForwardWithUpstreams(concurrent int, us []upstream.Upstream, tags []string) (*Forward, error) {
+	args := &Args{Concurrent: concurrent}
+	f := &Forward{
+		args:         args,
+		logger:       zap.NewNop(),
+		tag2Upstream: make(map[string]*upstreamWrapper),
+	}
+	for i, u := range us {
+		c := UpstreamConfig{Addr: fmt.Sprintf("verif://%d", i)}
+		if i < len(tags) {
+			c.Tag = tags[i]
+		}
+		args.Upstreams = append(args.Upstreams, c)
+		uw := newWrapper(i, c, "verif")
+		uw.u = u
+		f.us = append(f.us, uw)
+		if len(c.Tag) > 0 {
+			if _, dup := f.tag2Upstream[c.Tag]; dup {
+				return nil, fmt.Errorf("duplicated upstream tag %s", c.Tag)
+			}
+			f.tag2Upstream[c.Tag] = uw
+		}
+	}
+	return f, nil
+}
